@@ -22,7 +22,7 @@ Cases == {[fam |-> "hostile", proto |-> p, limit |-> l, class |-> c, lenval |-> 
              p \in Protos, l \in Limits, lv \in LenVals}
     \* length information given twice, or negative (only the http-style protocol can express it: repeated / signed Content-Length)
     \cup {[fam |-> "hostile", proto |-> "http", limit |-> l, class |-> cl, lenval |-> "-", variant |-> 1, expect |-> "robust"] :
-             l \in Limits, cl \in {"duplen", "neglen"}}
+             l \in Limits, cl \in {"duplen", "neglen", "endlessline"}}
 
 \* hostile REPLY bodies: the receiver has a call outstanding (a result struct with a fixed-size array, a slice and scalars)
 \* and the remote answers with a well-formed REPLY frame whose body, in the codec it names, is malformed in one of these
